@@ -17,8 +17,16 @@ func restartCase(rt *rapid.T, prop string, levels []byte, pointLimit int) {
 	cfg := baseConfig()
 	cfg.AtLeastOnceMax = rapid.SampledFrom([]int{2, 3, 5, 16, 64, -1, 20000}).Draw(rt, "max1")
 	cfg.ExactlyOnceMax = rapid.SampledFrom([]int{2, 3, 5, 16, 64, -1, 20000}).Draw(rt, "max2")
-	h0 := runGen0(rt, prop, cfg, levels, func(h *H, actions map[string]func(*rapid.T)) {
-		h.Act("config AtLeastOnceMax=%d ExactlyOnceMax=%d", cfg.AtLeastOnceMax, cfg.ExactlyOnceMax)
+	// The first process may ask for a clean session (only its first connection
+	// may carry the flag: a later one makes the broker forget its half of the
+	// exactly-once handshakes). The processes which adopt the session do not.
+	cfg0 := cfg
+	cfg0.CleanSession = rapid.IntRange(0, 2).Draw(rt, "cleanSession") == 0
+	h0 := runGen0(rt, prop, cfg0, levels, func(h *H, actions map[string]func(*rapid.T)) {
+		h.Act("config AtLeastOnceMax=%d ExactlyOnceMax=%d CleanSession=%t", cfg.AtLeastOnceMax, cfg.ExactlyOnceMax, cfg0.CleanSession)
+		if cfg0.CleanSession {
+			h.label("clean-session-requested-by-the-first-process")
+		}
 		rt.Repeat(actions)
 	})
 	if rapid.Bool().Draw(rt, "drainFirstGeneration") {
